@@ -643,7 +643,7 @@ func runC13(c *ev.Ctx) {
 		if bc.race {
 			env = append(env, "GORACE=halt_on_error=0 log_path="+filepath.Join(work, fmt.Sprintf("race-bin-%d", i)))
 		}
-		limit := 10 * time.Minute
+		limit := 2 * time.Minute // a 2E4 run takes well under 10 s even with strace delays or -race
 		if bc.scale != "2E4" {
 			limit = 45 * time.Minute
 		}
@@ -718,10 +718,12 @@ type c20Case struct {
 	Race   bool   `json:"race_build"`
 	Strace bool   `json:"strace_delay"`
 	Accept bool   `json:"run_rddetector"`
+	PrevN  int    `json:"previous_run_n_bits,omitempty"` // > 0: rdgen was run before in the same directory with this sample length
+	PrevS  int    `json:"previous_run_s,omitempty"`
 }
 
 func runC20(c *ev.Ctx) {
-	c.Rule = "each case = one run of the built rdgen in a fresh scratch working directory: exit 0; the set of files under the requested output directory (default target/data) is exactly random0.bin..random(s-1).bin plus whatever was there before (unchanged); every size is n/8; contents pairwise different (n >= 256 bits); nothing created elsewhere under the working directory; for the supported sizes rddetector accepts the directory as s samples of n bits. Varied: s in {1,2,3,17,64,300}, n in {8,64,20000,10^6,98760,10^8}, -o absent / relative / ./a/b/c / absolute / pre-existing with unrelated files / trailing slash, 1/2/16 CPUs via taskset, GOMAXPROCS 1/16, strace-delayed write/openat, -race build. non-trivial = every run (each has its own post-state); distinct = distinct configuration"
+	c.Rule = "each case = one run of the built rdgen in a fresh scratch working directory: exit 0; the set of files under the requested output directory (default target/data) is exactly random0.bin..random(s-1).bin plus whatever was there before (unchanged); every size is n/8; contents pairwise different (n >= 256 bits); nothing created elsewhere under the working directory; for the supported sizes rddetector accepts the directory as s samples of n bits. Varied: s in {1,2,3,17,64,300}, n in {8,64,20000,10^6,98760,10^8}, -o absent / relative / ./a/b/c / absolute / pre-existing with unrelated files / trailing slash / a directory already used by an earlier rdgen run with longer, shorter or equal samples, 1/2/16 CPUs via taskset, GOMAXPROCS 1/16, strace-delayed write/openat, -race build. non-trivial = every run (each has its own post-state); distinct = distinct configuration"
 	c.Assumptions = []string{"file-system post-state is read after the process exited"}
 	seed := uint64(c.Seed)
 	work := os.Getenv("VERIF_WORK")
@@ -764,6 +766,10 @@ func runC20(c *ev.Ctx) {
 		cases = append(cases, c20Case{S: 5, N: 20000, Out: o, Pre: o == "pre", CPUs: []int{0, 1, 2}[r.Intn(3)], Accept: true})
 	}
 	cases = append(cases, c20Case{S: 2, N: 100000000, Out: "big", Accept: true})
+	// re-generation into a directory used by an earlier run (longer / shorter / equal samples)
+	for i, pv := range [][3]int{{1000000, 20000, 6}, {20008, 20000, 5}, {8, 20000, 5}, {20000, 20000, 7}, {64, 8, 9}, {1000008, 1000000, 2}} {
+		cases = append(cases, c20Case{S: pv[2], N: pv[1], PrevN: pv[0], PrevS: pv[2], Out: outs[i%len(outs)], Pre: outs[i%len(outs)] == "pre", Accept: pv[1] == 20000 || pv[1] == 1000000, CPUs: []int{0, 1, 2}[i%3]})
+	}
 	if c.Thorough() {
 		for i := 0; i < 40; i++ {
 			cases = append(cases, c20Case{S: r.Range(1, 400), N: 8 * r.Range(1, 4000), Out: outs[r.Intn(len(outs))], CPUs: []int{0, 1, 2, 3}[r.Intn(4)], Procs: []int{0, 1, 2, 16}[r.Intn(4)], Race: i%4 == 0, Strace: haveStrace && i%5 == 0})
@@ -820,8 +826,21 @@ func runC20(c *ev.Ctx) {
 		if cs.Race {
 			env = append(env, "GORACE=halt_on_error=0 log_path="+filepath.Join(work, fmt.Sprintf("race-gen-%d", i)))
 		}
+		if cs.PrevN > 0 {
+			// the earlier run: same command line with the previous sample length
+			prev := append([]string(nil), argv...)
+			for j := range prev {
+				if prev[j] == "-n" {
+					prev[j+1] = fmt.Sprint(cs.PrevN)
+				}
+				if prev[j] == "-s" {
+					prev[j+1] = fmt.Sprint(cs.PrevS)
+				}
+			}
+			runProc(cwd, env, 10*time.Minute, prev...)
+		}
 		pr := runProc(cwd, env, 10*time.Minute, argv...)
-		key := fmt.Sprintf("rdgen:s=%d:n=%d:o=%q:cpus=%d:procs=%d:race=%v:strace=%v", cs.S, cs.N, cs.Out, cs.CPUs, cs.Procs, cs.Race, cs.Strace)
+		key := fmt.Sprintf("rdgen:s=%d:n=%d:o=%q:cpus=%d:procs=%d:race=%v:strace=%v:prev_n=%d", cs.S, cs.N, cs.Out, cs.CPUs, cs.Procs, cs.Race, cs.Strace, cs.PrevN)
 		var probs []string
 		undecided := false
 		if pr.Status == "timeout" {
